@@ -5,6 +5,6 @@ package props
 // MapSeam tells whether this build iterates maps in explorer-chosen order.
 const MapSeam = false
 
-func mapReset(ch []int) {}
-func mapLog() []int     { return nil }
+func mapReset(ch []int)  {}
+func mapLog() []int      { return nil }
 func mapSites() []string { return nil }
